@@ -78,7 +78,7 @@ func main() {
 	vh.ReadJSON(*cases, &cf)
 	vh.Must(cf.fixup(), "cases file")
 	r := &runner{cf: &cf, seed: *seed, dir: *dir, casesOf: map[int][]*kase{}, partsOf: map[int][]*part{},
-		distinct: map[string]bool{}, chains: map[string]int{}, planCls: map[string]int{}}
+		distinct: map[string]bool{}, chains: map[string]int{}, planCls: map[string]int{}, guardCnt: map[string]int{}}
 	for i := range cf.Cases {
 		k := &cf.Cases[i]
 		r.casesOf[k.H] = append(r.casesOf[k.H], k)
